@@ -269,3 +269,171 @@ Proof.
   lia.
 Qed.
 
+
+(* =====================================================================================
+   Reader: ojphMELReader
+   ===================================================================================== *)
+Fixpoint eff (data : list Z) (size : Z) : list Z :=
+  match data with
+  | [] => []
+  | b :: r => if size <=? 0 then [] else if size =? 1 then [Z.lor b 15] else b :: eff r (size - 1)
+  end.
+Definition o_prev (s : melr) : Z := if mr_unstuff s then 255 else 0.
+Definition o_repr (s : melr) : list Z := mr_bitbuf s ++ unstuff (o_prev s) (eff (mr_data s) (mr_size s)).
+Definition o_ok (s : melr) : Prop :=
+  Forall (fun b => 0 <= b < 256) (mr_data s) /\ mr_size s <= zlen (mr_data s).
+
+Lemma eff_nonpos : forall l size, size <= 0 -> eff l size = [].
+Proof. intros [|b l] size H; cbn [eff]; [reflexivity|]. destruct (Z.leb_spec size 0); [reflexivity|lia]. Qed.
+
+Lemma unstuff_prev_eq : forall l p1 p2, (p1 =? 255) = (p2 =? 255) -> unstuff p1 l = unstuff p2 l.
+Proof. intros [|b l] p1 p2 H; cbn [unstuff]; [reflexivity|]. rewrite H. reflexivity. Qed.
+
+Lemma msb_bits_nonempty : forall n d, (1 <= n)%nat -> exists b r, msb_bits n d = b :: r.
+Proof. intros [|n] d H; [lia|]. cbn [msb_bits]. eauto. Qed.
+
+Lemma o_read_spec : forall s b r, o_ok s -> o_repr s = b :: r ->
+  exists s', melr_read_bit s = (b, s') /\ o_ok s' /\ o_repr s' = r /\
+             mr_k s' = mr_k s /\ mr_runs s' = mr_runs s.
+Proof.
+  intros s b r [Hdata Hsize] Hrepr. unfold melr_read_bit, o_repr in *.
+  destruct (mr_bitbuf s) as [|b0 q] eqn:Ebb.
+  - cbn [app] in Hrepr.
+    destruct (mr_data s) as [|d0 r0] eqn:Ed; [cbn [eff unstuff] in Hrepr; discriminate|].
+    try rewrite Ed in Hdata. try rewrite Ed in Hsize.
+    cbn [eff] in Hrepr.
+    destruct (Z.leb_spec (mr_size s) 0) as [Hle|Hgt]; [cbn [unstuff] in Hrepr; discriminate|].
+    inversion Hdata as [|? ? Hd0 Hr0]; subst.
+    set (d := if mr_size s =? 1 then Z.lor d0 15 else d0) in *.
+    assert (Heff : (if mr_size s =? 1 then [Z.lor d0 15] else d0 :: eff r0 (mr_size s - 1)) = d :: eff r0 (mr_size s - 1)).
+    { unfold d. destruct (Z.eqb_spec (mr_size s) 1) as [E|E]; [|reflexivity]. rewrite E. rewrite eff_nonpos by lia. reflexivity. }
+    rewrite Heff in Hrepr. cbn [unstuff] in Hrepr.
+    assert (Hn : (if o_prev s =? 255 then 7%nat else 8%nat) = (if mr_unstuff s then 7%nat else 8%nat))
+      by (unfold o_prev; destruct (mr_unstuff s); reflexivity).
+    rewrite Hn in Hrepr.
+    destruct (msb_bits_nonempty (if mr_unstuff s then 7 else 8) d ltac:(destruct (mr_unstuff s); lia)) as [b1 [q1 Eb]].
+    rewrite Eb in *. cbn [app] in Hrepr. inversion Hrepr as [[E1 E2]].
+    eexists. split; [reflexivity|]. cbn [mr_data mr_size mr_unstuff mr_k mr_runs mr_bitbuf].
+    split; [split; [exact Hr0| unfold zlen in *; cbn [length] in Hsize; lia]|].
+    split; [|split; reflexivity].
+    unfold o_prev. cbn [mr_data mr_size mr_unstuff mr_k mr_runs mr_bitbuf]. f_equal.
+    apply unstuff_prev_eq. destruct (d =? 255); reflexivity.
+  - cbn [app] in Hrepr. inversion Hrepr as [[E1 E2]].
+    eexists. split; [reflexivity|]. cbn [mr_data mr_size mr_unstuff mr_k mr_runs mr_bitbuf].
+    split; [split; assumption|]. split; [|split; reflexivity].
+    unfold o_prev. cbn [mr_data mr_size mr_unstuff mr_k mr_runs mr_bitbuf]. reflexivity.
+Qed.
+
+Lemma o_read_run_spec : forall n s acc j r, o_ok s -> 0 <= j ->
+  o_repr s = msb_bits n j ++ r ->
+  exists s', melr_read_run n s acc = (acc * 2 ^ Z.of_nat n + j mod 2 ^ Z.of_nat n, s') /\ o_ok s' /\
+             o_repr s' = r /\ mr_k s' = mr_k s /\ mr_runs s' = mr_runs s.
+Proof.
+  induction n as [|n IH]; intros s acc j r Hok Hj Hrepr.
+  - cbn [melr_read_run msb_bits app] in *. exists s. change (2 ^ Z.of_nat 0) with 1.
+    rewrite Z.mod_1_r, Z.mul_1_r, Z.add_0_r.
+    split; [reflexivity|]. split; [exact Hok|]. split; [exact Hrepr|]. split; reflexivity.
+  - cbn [melr_read_run msb_bits app] in *.
+    destruct (o_read_spec s _ _ Hok Hrepr) as [s1 [Hrd [Hok1 [Hr1 [K1 Q1]]]]].
+    rewrite Hrd. set (b := Z.land (Z.shiftr j (Z.of_nat n)) 1) in *.
+    destruct (IH s1 (Z.lor (Z.shiftl acc 1) b) j r Hok1 Hj Hr1) as [s2 [Hrun [Hok2 [Hr2 [K2 Q2]]]]].
+    exists s2. split.
+    + rewrite Hrun. f_equal.
+      assert (Eb : b = (j / 2 ^ Z.of_nat n) mod 2).
+      { unfold b. rewrite Z.shiftr_div_pow2 by lia. change 1 with (Z.ones 1). rewrite Z.land_ones by lia. reflexivity. }
+      assert (Hb : b = 0 \/ b = 1) by (rewrite Eb; pose proof (Z.mod_pos_bound (j / 2 ^ Z.of_nat n) 2 ltac:(lia)); lia).
+      assert (Hp : 0 < 2 ^ Z.of_nat n) by (apply Z.pow_pos_nonneg; lia).
+      assert (El : Z.lor (Z.shiftl acc 1) b = 2 * acc + b).
+      { rewrite Z.shiftl_mul_pow2 by lia. change (2 ^ 1) with 2. rewrite (Z.mul_comm acc 2).
+        destruct Hb as [E|E]; rewrite E; [rewrite Z.lor_0_r; lia|].
+        apply Z.bits_inj'. intros m Hm. rewrite Z.lor_spec. destruct (Z.eq_dec m 0) as [->|Hm0].
+        - rewrite Z.testbit_even_0, Z.testbit_odd_0. reflexivity.
+        - replace m with (Z.succ (m - 1)) by lia.
+          rewrite Z.testbit_even_succ, Z.testbit_odd_succ by lia.
+          change 1 with (2 * 0 + 1). rewrite Z.testbit_odd_succ by lia. rewrite Z.bits_0. apply orb_false_r. }
+      rewrite El. rewrite Nat2Z.inj_succ, Z.pow_succ_r by lia.
+      rewrite (Z.mul_comm 2 (2 ^ Z.of_nat n)).
+      rewrite (Z.rem_mul_r j (2 ^ Z.of_nat n) 2) by lia. rewrite <- Eb. ring.
+    + split; [exact Hok2|]. split; [exact Hr2|]. split; congruence.
+Qed.
+
+(* ---------- legal run values ---------- *)
+Fixpoint valid_runs (rs : list Z) (k : Z) : Prop :=
+  match rs with
+  | [] => True
+  | r :: rs' => 0 <= k <= 12 /\
+                (if Z.even r then r = 2 * (thr k - 1) /\ valid_runs rs' (kup k)
+                 else 0 <= Z.shiftr r 1 < thr k /\ r = 2 * Z.shiftr r 1 + 1 /\ valid_runs rs' (kdn k))
+  end.
+
+Lemma runs_of_valid : forall evs k run, 0 <= k <= 12 -> 0 <= run < thr k -> valid_runs (runs_of evs k run) k.
+Proof.
+  induction evs as [|[|] evs IH]; intros k run Hk Hr.
+  - cbn [runs_of]. destruct (run >? 0); cbn [valid_runs]; [|exact I].
+    split; [exact Hk|]. rewrite even_2x. split; [reflexivity|exact I].
+  - cbn [runs_of valid_runs]. split; [exact Hk|]. rewrite even_2x1, half_2x1.
+    split; [exact Hr|]. split; [reflexivity|].
+    apply IH; [apply kdn_range; exact Hk|]. pose proof (thr_pos (kdn k) (kdn_range k Hk)). lia.
+  - cbn [runs_of]. destruct (Z.geb_spec (run + 1) (thr k)).
+    + cbn [valid_runs]. split; [exact Hk|]. rewrite even_2x. split; [reflexivity|].
+      apply IH; [apply kup_range; exact Hk|]. pose proof (thr_pos (kup k) (kup_range k Hk)). lia.
+    + apply IH; [exact Hk|lia].
+Qed.
+
+(* one codeword *)
+Lemma decode_one_spec : forall s r rs tail, o_ok s -> valid_runs (r :: rs) (mr_k s) ->
+  o_repr s = bits_of_runs (r :: rs) (mr_k s) ++ tail ->
+  let s' := melr_decode_one s in
+  o_ok s' /\ mr_runs s' = mr_runs s ++ [r] /\ valid_runs rs (mr_k s') /\
+  o_repr s' = bits_of_runs rs (mr_k s') ++ tail.
+Proof.
+  intros s r rs tail Hok Hv Hrepr. cbv zeta. cbn [valid_runs bits_of_runs] in Hv, Hrepr.
+  destruct Hv as [Hk Hv]. unfold melr_decode_one.
+  pose proof (mel_e_range _ Hk) as He. pose proof (thr_pos _ Hk) as [Htp Et].
+  destruct (Z.even r) eqn:Eev.
+  - destruct Hv as [Er Hv]. cbn [app] in Hrepr.
+    destruct (o_read_spec s 1 _ Hok Hrepr) as [s1 [Hrd [Hok1 [Hr1 [K1 Q1]]]]].
+    rewrite Hrd. change (1 =? 1) with true. cbv iota.
+    cbn [mr_data mr_size mr_unstuff mr_k mr_runs mr_bitbuf].
+    split; [exact Hok1|]. rewrite K1, Q1. fold (kup (mr_k s)).
+    split; [f_equal; f_equal; rewrite Er; unfold thr; ring|].
+    split; [exact Hv|].
+    unfold o_repr, o_prev. cbn [mr_data mr_size mr_unstuff mr_k mr_runs mr_bitbuf]. exact Hr1.
+  - destruct Hv as [Hj [Er Hv]]. rewrite <- app_assoc in Hrepr. cbn [app] in Hrepr.
+    destruct (o_read_spec s 0 _ Hok Hrepr) as [s1 [Hrd [Hok1 [Hr1 [K1 Q1]]]]].
+    rewrite Hrd. change (0 =? 1) with false. cbv iota.
+    destruct (o_read_run_spec (Z.to_nat (mel_e (mr_k s))) s1 0 (Z.shiftr r 1) _ Hok1 ltac:(lia) Hr1)
+      as [s2 [Hrun [Hok2 [Hr2 [K2 Q2]]]]].
+    rewrite Hrun. cbn [mr_data mr_size mr_unstuff mr_k mr_runs mr_bitbuf].
+    split; [exact Hok2|]. rewrite K2, K1, Q2, Q1. fold (kdn (mr_k s)).
+    split.
+    + f_equal. f_equal. rewrite Z2Nat.id by lia. rewrite <- Et. rewrite Z.mod_small by lia.
+      rewrite Z.mul_0_l, Z.add_0_l. rewrite Z.shiftl_mul_pow2 by lia. change (2 ^ 1) with 2. lia.
+    + split; [exact Hv|].
+      unfold o_repr, o_prev. cbn [mr_data mr_size mr_unstuff mr_k mr_runs mr_bitbuf]. exact Hr2.
+Qed.
+
+Lemma decode_one_appends : forall s, exists g, mr_runs (melr_decode_one s) = mr_runs s ++ [g].
+Proof.
+  intro s. unfold melr_decode_one.
+  destruct (melr_read_bit s) as [lead s1] eqn:E1.
+  assert (Q1 : mr_runs s1 = mr_runs s).
+  { unfold melr_read_bit in E1. destruct (mr_bitbuf s); [|inversion E1; reflexivity].
+    destruct (mr_size s <=? 0); [inversion E1; reflexivity|].
+    destruct (mr_data s) as [|d0 r0].
+    - destruct (msb_bits (if mr_unstuff s then 7 else 8) 255); inversion E1; reflexivity.
+    - destruct (msb_bits (if mr_unstuff s then 7 else 8) (if mr_size s =? 1 then Z.lor d0 15 else d0)); inversion E1; reflexivity. }
+  destruct (lead =? 1).
+  - cbn [mr_runs]. rewrite Q1. eauto.
+  - assert (Hrr : forall n s acc, mr_runs (snd (melr_read_run n s acc)) = mr_runs s).
+    { induction n as [|n IH]; intros s0 acc; [reflexivity|]. cbn [melr_read_run].
+      destruct (melr_read_bit s0) as [b0 s0'] eqn:E0. rewrite IH.
+      unfold melr_read_bit in E0. destruct (mr_bitbuf s0); [|inversion E0; reflexivity].
+      destruct (mr_size s0 <=? 0); [inversion E0; reflexivity|].
+      destruct (mr_data s0) as [|d0 r0].
+      - destruct (msb_bits (if mr_unstuff s0 then 7 else 8) 255); inversion E0; reflexivity.
+      - destruct (msb_bits (if mr_unstuff s0 then 7 else 8) (if mr_size s0 =? 1 then Z.lor d0 15 else d0)); inversion E0; reflexivity. }
+    specialize (Hrr (Z.to_nat (mel_e (mr_k s))) s1 0).
+    destruct (melr_read_run (Z.to_nat (mel_e (mr_k s))) s1 0) as [run s2]. cbn [snd] in Hrr.
+    cbn [mr_runs]. rewrite Hrr, Q1. eauto.
+Qed.
